@@ -119,6 +119,8 @@ func (x *Ex) genTables() string {
 		{"internal/pagination", "rxNextLink"}, {"internal/pagination", "rxPrevLink"}, {"internal/pagination", "rxPositive"}, {"internal/pagination", "rxNegative"},
 		{"internal/pagination", "rxExtraneous"}, {"internal/pagination", "rxPagination"}, {"internal/pagination", "rxLinkPagination"}, {"internal/pagination", "rxFirstLast"},
 		{"internal/pagination", "rxNumberAtStart"},
+		{"internal/extractor", "rxTitleSeparator"}, {"internal/extractor", "rxTitleHierarchySep"}, {"internal/extractor", "rxTitleRemoveFinalPart"},
+		{"internal/extractor", "rxTitleRemove1stPart"}, {"internal/extractor", "rxTitleAnySeparator"},
 		{"internal/converter", "rxUnlikelyCandidates"}, {"internal/converter", "rxOkMaybeItsACandidate"}, {"internal/converter", "rxByline"},
 	})
 	x.tableVar(f, "internal/extractor/embed", "relevantTwitterTags", "relevantTwitterTags")
